@@ -204,10 +204,27 @@ pub fn run(run: &mut Run) {
     run.set("max_depth", 1);
     run.set("rule", format!("every (start, size) with start in 0..={0} regions and size in 0..={0} regions over a {1}-region window whose region 0 is word-aligned in the metadata x widths 1..64 bits x {{bzero, bset, bcopy from a second spec}} x backgrounds {{00, ff, hash}}, plus ranges of k regions before and j after a 4 MiB chunk boundary; the whole dst metadata window +24/-32 bytes and the source are compared with a model image; non-trivial = the range starts or ends inside a metadata byte", span, 2 * span));
     run.assume("start and size are multiples of the region size (the property speaks of regions lying in the range)");
+    // concurrent neighbours: a bulk zero / set that covers only part of a metadata byte against an
+    // atomic update of a field of the same byte that lies OUTSIDE the range (it must stay
+    // unchanged by the bulk operation): all interleavings at the hardware atomics (engine `baton`).
+    // bcopy is documented as non-atomic and is not offered.
+    {
+        use super::metaconc::{race_probe, run_pairs, Kind::*};
+        run_pairs(run, &[Bzero, Bset], &[Store, FetchOr, FetchAnd, FetchUpdate], thorough);
+        // sampled companion (free-running threads; not part of the coverage claim)
+        race_probe(run, &[Bzero, Bset], 200_000);
+    }
+    run.assume("concurrency: one bulk zero/set of a single sub-byte region per thread against one atomic accessor on another field of the same byte (1/2/4-bit specs), all interleavings");
 }
 
 pub fn replay(case: &Value, run: &mut Run) {
     init_side_metadata();
+    if case["engine"] == "baton" {
+        return super::metaconc::replay(case, run);
+    }
+    if case["engine"] == "race_probe" {
+        return super::metaconc::replay_probe(case, run);
+    }
     let kind = match case["kind"].as_str().unwrap() {
         "Zero" => Kind::Zero,
         "Set" => Kind::Set,
